@@ -560,7 +560,10 @@ func (x *ttlCtx) checkDeadlineFn() {
 		n++
 		facts := t.factsBefore(len(t.Events))
 		ttl := t.Params[0]
-		nonPos := hasFact(facts, func(f Fact) bool { z, isz := f.Y.intConst(); return f.X.Key() == ttl.Key() && isz && z == 0 && f.Op == token.LEQ })
+		nonPos := hasFact(facts, func(f Fact) bool {
+			z, isz := f.Y.intConst()
+			return f.X.Key() == ttl.Key() && isz && z == 0 && f.Op == token.LEQ
+		})
 		r := t.Ret[0]
 		if nonPos {
 			v, isC := r.intConst()
